@@ -126,7 +126,14 @@ Inductive cdict_state : Set := CD_none | CD_local (built : bool) | CD_cdict | CD
 
 Record cctx : Type := mkC { c_params : cstore; c_stage : stage; c_dict : cdict_state; c_static : bool }.
 
-Definition cctx_new (is_static : bool) : cctx := mkC cparams_default S_init CD_none is_static.
+(* ZSTD_createCCtx -> ZSTD_initCCtx and (since fix 32f35e7) ZSTD_initStaticCCtx reset the parameters to their defaults.
+   Before that fix ZSTD_initStaticCCtx only memset the context: every field 0, seen through getParameter
+   (dictIDFlag = !0); [cctx_new_gen true] keeps that variant for the refutation. *)
+Definition cparams_zero : cstore := fun q => match q with C_dictIDFlag => 1 | _ => 0 end.
+Definition cctx_new_gen (static_zeroed : bool) (is_static : bool) : cctx :=
+  mkC (if static_zeroed && is_static then cparams_zero else cparams_default) S_init CD_none is_static.
+Definition cctx_new : bool -> cctx := cctx_new_gen false.
+Definition cctx_new_prefix : bool -> cctx := cctx_new_gen true.
 
 Definition stage_is_init (s : stage) : bool := match s with S_init => true | S_mid => false end.
 
